@@ -487,3 +487,113 @@ def _getitem2(ip, v, idx):
 
 
 MODELS["getitem"] = _getitem2
+
+
+# ---------------------------------------------------------------------- small concrete-length vectors
+
+
+class CVec(list):
+    """vector of known length with symbolic entries; arithmetic / comparisons are elementwise (numpy broadcasting with scalars)"""
+
+    __cvec__ = True
+
+    @property
+    def shape(self):
+        return (len(self),)
+
+
+def cvec_elementwise(ip, op, a, b):
+    la = a if isinstance(a, CVec) else None
+    lb = b if isinstance(b, CVec) else None
+    n = len(la if la is not None else lb)
+    out = CVec()
+    for i in range(n):
+        x = la[i] if la is not None else a
+        y = lb[i] if lb is not None else b
+        out.append(op(x, y))
+    return out
+
+
+def _cvec_binop(op):
+    prev = MODELS.get("binop:" + op)
+
+    def h(ip, a, b):
+        if isinstance(a, CVec) or isinstance(b, CVec):
+            return cvec_elementwise(ip, lambda x, y: ip.binop(op, x, y), a, b)
+        if prev:
+            return prev(ip, a, b)
+        raise Unsupported(f"binop {op}")
+    return h
+
+
+for _op in ("Add", "Sub", "Mult", "Div", "Mod"):
+    MODELS["binop:" + _op] = _cvec_binop(_op)
+
+_prev_where = MODELS["jax.numpy.where"]
+
+
+def _where_vec(ip, cond, x=None, y=None):
+    if isinstance(cond, CVec):
+        out = CVec()
+        for i, cb in enumerate(cond):
+            out.append(_prev_where(ip, cb, x[i] if isinstance(x, CVec) else x, y[i] if isinstance(y, CVec) else y))
+        return out
+    return _prev_where(ip, cond, x, y)
+
+
+MODELS["jax.numpy.where"] = _where_vec
+MODELS["numpy.where"] = _where_vec
+
+_prev_log = MODELS["jax.numpy.log"]
+MODELS["jax.numpy.log"] = lambda ip, x: CVec([_prev_log(ip, e) for e in x]) if isinstance(x, CVec) else _prev_log(ip, x)
+
+
+def _jnp_sum(ip, x, axis=None, **kw):
+    if isinstance(x, CVec):
+        acc = None
+        for e in x:
+            e = to_sort(e, z3.IntSort()) if is_z3(e) and z3.is_bool(e) else (int(e) if isinstance(e, bool) else e)
+            acc = e if acc is None else ip.binop("Add", acc, e)
+        return acc if acc is not None else 0
+    h = MODELS.get("jax.numpy.sum:fallback")
+    if h:
+        return h(ip, x, axis=axis, **kw)
+    raise Unsupported("jnp.sum")
+
+
+MODELS["jax.numpy.sum"] = _jnp_sum
+
+
+@model("jax.lax.fori_loop")
+def _fori(ip, lower, upper, body_fun, init_val):
+    """A-LOOP: fori_loop(lo, hi, f, x) = f(hi-1, ... f(lo, x)) for concrete bounds"""
+    lo, hi = ip.conc_int(lower), ip.conc_int(upper)
+    if lo is None or hi is None:
+        raise Unsupported("fori_loop with symbolic bounds")
+    x = init_val
+    for i in range(lo, hi):
+        x = ip.call(body_fun, [i, x], {})
+    return x
+
+
+def _logical(op):
+    def h(ip, a, b=None):
+        def one(x, y=None):
+            bx = ip.truth(x)
+            bx = z3.BoolVal(bx) if isinstance(bx, bool) else bx
+            if op == "not":
+                return z3.Not(bx)
+            by = ip.truth(y)
+            by = z3.BoolVal(by) if isinstance(by, bool) else by
+            return z3.And(bx, by) if op == "and" else z3.Or(bx, by)
+        if isinstance(a, CVec) or isinstance(b, CVec):
+            if op == "not":
+                return CVec([one(x) for x in a])
+            return cvec_elementwise(ip, one, a, b)
+        return one(a, b)
+    return h
+
+
+for _n, _o in (("logical_and", "and"), ("logical_or", "or"), ("logical_not", "not")):
+    MODELS[f"jax.numpy.{_n}"] = _logical(_o)
+    MODELS[f"numpy.{_n}"] = _logical(_o)
